@@ -4,5 +4,5 @@ CONSTANTS
   MaxT = 6
   Slice = 2
   Deviations = {}
-INVARIANTS NotCorrupt SyscallNeverPreempted BusyPreempted
+INVARIANTS NotCorrupt SyscallNeverPreempted BusyPreempted NoSelfDeadlock
 CHECK_DEADLOCK FALSE
